@@ -20,6 +20,8 @@
 using namespace vf;
 using namespace Opm;
 
+static constexpr double CurrentPI = 2.5e-10;      // SI
+
 static std::string make_deck(const std::string& head, const std::vector<std::string>& blocks) {
     std::string s = head;
     for (const auto& b : blocks) s += b + "TSTEP\n 1 /\n";
@@ -37,9 +39,12 @@ int main(int argc, char** argv) {
         tr.emit({{"e", "Reset"}, {"id", id++}});
         const std::string head = sc["head"];
         const auto blocks = sc["blocks"].get<std::vector<std::string>>();
+        bool anyWelpi = false;
+        for (const auto& app : sc["apps"]) anyWelpi = anyWelpi || (app.contains("welpi") && !app["welpi"].empty());
+        const std::uint64_t mask = 0;
         auto snaps = [&](const std::string& run, const Schedule& sched) {
             for (std::size_t k = 0; k < sched.size(); ++k)
-                tr.emit({{"e", "Snap"}, {"run", run}, {"step", k}, {"proj", project_state(sched[k], /*maskActionEvent=*/true)}});
+                tr.emit({{"e", "Snap"}, {"run", run}, {"step", k}, {"proj", project_state(sched[k], /*maskActionEvent=*/true, false, mask)}});
         };
         try {
             const auto deck = parser.parseString(make_deck(head, blocks));
@@ -59,7 +64,10 @@ int main(int argc, char** argv) {
                     Action::Result result{true};
                     result.wells(app["wells"].get<std::vector<std::string>>());
                     const auto& action = sched[n].actions()[name];
-                    sched.applyAction(n, action, result.matches(), std::unordered_map<std::string, double>{});
+                    // the simulator's current productivity index of every well (WELPI in an action body scales against it)
+                    std::unordered_map<std::string, double> wellpi;
+                    for (const auto& w : sched.wellNames(n)) wellpi[w] = CurrentPI;
+                    sched.applyAction(n, action, result.matches(), wellpi);
                     ev["res"] = "ok";
                     ev["nsteps"] = sched.size();
                 } catch (const std::exception& e) { ev["res"] = "error"; ev["what"] = std::string(e.what()).substr(0, 200); applied_ok = false; }
@@ -73,7 +81,9 @@ int main(int argc, char** argv) {
                 const EclipseState es2(deck2);
                 const Schedule sched2(deck2, es2, python);
                 tr.emit({{"e", "Build"}, {"run", "inlined"}, {"res", "ok"}, {"nsteps", sched2.size()}, {"appliedOk", applied_ok}});
-                if (applied_ok) snaps("inlined", sched2);
+                // (a WELPI written in the deck is only completed later by the simulator, so with a WELPI application the
+                //  inlined schedule is built - it must be accepted - but its states are not compared)
+                if (applied_ok && !anyWelpi) snaps("inlined", sched2);
             } catch (const std::exception& e) {
                 tr.emit({{"e", "Build"}, {"run", "inlined"}, {"res", "error"}, {"appliedOk", applied_ok}, {"what", std::string(e.what()).substr(0, 200)}});
             }
